@@ -2,8 +2,8 @@
 
    Function literals anywhere (inside function bodies and blocks: factories), closures by reference with `modify`
    writes through the captured cell, function values returned, stored, passed as arguments and called through a
-   variable, `self(..)`.  Statements: assignment, modify, print, expression statements, if, if / else, while, from (named
-   fresh counter, step 1), return.  Expressions: calls anywhere -- operands of arithmetic and comparisons, of && || !
+   variable, `self(..)`.  Statements: assignment, modify, op-assignment, print, assert, expression statements, if,
+   if / else, else-if, while, from (named fresh counter, step 1), break, continue, return (with and without a value).  Expressions: calls anywhere -- operands of arithmetic and comparisons, of && || !
    (short-circuit over calls), of `(a) or b` and `get a`, arguments of calls.
 
      kind            the static kinds: KD (a first-order value) / KF ps r (a function taking ps, returning r) /
@@ -114,6 +114,16 @@ Fixpoint last_ret (l : list stmt) : bool :=
 (* the kind of the result of a function: that of its returned values if it surely returns, otherwise "maybe nothing" *)
 Definition rkind (body : list stmt) (rets : list kind) : kind := if last_ret body then hd KD rets else KN.
 
+(* the code of a statement (list) may end exactly at the end of the function when it is a `return` (with or without value) *)
+Definition isret (st : stmt) : bool := match st with SReturn _ => true | _ => false end.
+Fixpoint endsret (l : list stmt) : bool :=
+  match l with [] => true | [st] => isret st | _ :: l' => endsret l' end.
+Lemma endsret_snoc : forall l st, endsret (l ++ [st]) = isret st.
+Proof.
+  induction l as [|x l IH]; intros st; [reflexivity|]. cbn [app]. destruct l as [|y l]; [reflexivity|].
+  change (endsret (x :: (y :: l) ++ [st])) with (endsret ((y :: l) ++ [st])). apply IH.
+Qed.
+
 Definition kres := option (kctx * list kind).       (* the locals afterwards, the kinds of the values returned *)
 
 Definition sfk := option (list kind * kind).     (* inside a function: the kinds of its parameters and of its result (for self(..)) *)
@@ -150,7 +160,7 @@ Fixpoint kexpr (SF : sfk) (B CD : kctx) (e : expr) {struct e} : option kind :=
       let kb := fun (sf : sfk) => fix kb (B' : kctx) (l : list stmt) {struct l} : kres :=
         match l with
         | [] => Some (B', [])
-        | s :: l => match kstmt sf B' G s with
+        | s :: l => match kstmt sf false B' G s with
                     | Some (B'', r1) => match kb B'' l with Some (B3, r2) => Some (B3, r1 ++ r2) | None => None end
                     | None => None end
         end in
@@ -165,12 +175,12 @@ Fixpoint kexpr (SF : sfk) (B CD : kctx) (e : expr) {struct e} : option kind :=
     | None => None end
   | _ => None
   end
-with kstmt (SF : sfk) (B CD : kctx) (s : stmt) {struct s} : kres :=
-  let fix kb (B' : kctx) (l : list stmt) {struct l} : kres :=
+with kstmt (SF : sfk) (il : bool) (B CD : kctx) (s : stmt) {struct s} : kres :=
+  let fix kb (il : bool) (B' : kctx) (l : list stmt) {struct l} : kres :=
     match l with
     | [] => Some (B', [])
-    | s :: l => match kstmt SF B' CD s with
-                | Some (B'', r1) => match kb B'' l with Some (B3, r2) => Some (B3, r1 ++ r2) | None => None end
+    | s :: l => match kstmt SF il B' CD s with
+                | Some (B'', r1) => match kb il B'' l with Some (B3, r2) => Some (B3, r1 ++ r2) | None => None end
                 | None => None end
     end in
   match s with
@@ -186,29 +196,38 @@ with kstmt (SF : sfk) (B CD : kctx) (s : stmt) {struct s} : kres :=
     match assoc x CD, kexpr SF B CD e with
     | Some k', Some k => if src_nameb x && kind_eqb k k' then Some (B, []) else None
     | _, _ => None end
+  | SOpAssign x o e =>
+    if arith5 o && src_nameb x && is_KD (kvar B CD x) && is_KD (kexpr SF B CD e) then Some (B, []) else None
   | SPrint e => if is_KD (kexpr SF B CD e) then Some (B, []) else None
+  | SAssert e _ => if is_KD (kexpr SF B CD e) then Some (B, []) else None
   | SExpr e => match kexpr SF B CD e with Some _ => Some (B, []) | None => None end
   | SIf c body =>
-    if is_KD (kexpr SF B CD c) then match kb B body with Some (_, r) => Some (B, r) | None => None end else None
+    if is_KD (kexpr SF B CD c) then match kb il B body with Some (_, r) => Some (B, r) | None => None end else None
   | SIfElse c body els =>
     if is_KD (kexpr SF B CD c) then
-      match kb B body, kb B els with Some (_, r1), Some (_, r2) => Some (B, r1 ++ r2) | _, _ => None end
+      match kb il B body, kb il B els with Some (_, r1), Some (_, r2) => Some (B, r1 ++ r2) | _, _ => None end
+    else None
+  | SIfElif c body nxt =>
+    if is_KD (kexpr SF B CD c) then
+      match kb il B body, kstmt SF il B CD nxt with Some (_, r1), Some (_, r2) => Some (B, r1 ++ r2) | _, _ => None end
     else None
   | SWhile c body =>
-    if is_KD (kexpr SF B CD c) then match kb B body with Some (_, r) => Some (B, r) | None => None end else None
+    if is_KD (kexpr SF B CD c) then match kb true B body with Some (_, r) => Some (B, r) | None => None end else None
   | SFrom a b incl None (Some x) false body =>
     if ok_dexpr B CD a && ok_dexpr B CD b && src_nameb x && negb (mem_str x (map fst B)) && negb (mem_str x (used_e b)) then
-      match kb ((x, KD) :: B) body with Some (_, r) => Some (B, r) | None => None end
+      match kb true ((x, KD) :: B) body with Some (_, r) => Some (B, r) | None => None end
     else None
+  | SBreak | SContinue => if il then Some (B, []) else None
+  | SReturn None => Some (B, [KN])
   | SReturn (Some e) => match kexpr SF B CD e with Some k => Some (B, [k]) | None => None end
   | _ => None
   end.
 
-Fixpoint kblock (SF : sfk) (B CD : kctx) (l : list stmt) {struct l} : kres :=
+Fixpoint kblock (SF : sfk) (il : bool) (B CD : kctx) (l : list stmt) {struct l} : kres :=
   match l with
   | [] => Some (B, [])
-  | s :: l => match kstmt SF B CD s with
-              | Some (B', r1) => match kblock SF B' CD l with Some (B3, r2) => Some (B3, r1 ++ r2) | None => None end
+  | s :: l => match kstmt SF il B CD s with
+              | Some (B', r1) => match kblock SF il B' CD l with Some (B3, r2) => Some (B3, r1 ++ r2) | None => None end
               | None => None end
   end.
 Fixpoint kargs (SF : sfk) (B CD : kctx) (l : list expr) : option (list kind) :=
@@ -223,27 +242,39 @@ Definition kfn (B CD : kctx) (ps : list str) (body : list stmt) : option (kctx *
   let pk := map (pkind body) ps in
   match capctx B CD (free_vars ps body) with
   | Some G =>
-    match kblock (Some (pk, KD)) (rev (combine ps pk)) G body with
+    match kblock (Some (pk, KD)) false (rev (combine ps pk)) G body with
     | Some (_, rets0) =>
       let r := rkind body rets0 in
       match (if kind_eqb r KD then Some rets0
-             else match kblock (Some (pk, r)) (rev (combine ps pk)) G body with Some (_, rets) => Some rets | None => None end) with
+             else match kblock (Some (pk, r)) false (rev (combine ps pk)) G body with Some (_, rets) => Some rets | None => None end) with
       | Some rets => if nodupb ps && forallb src_nameb ps && forallb (kind_eqb r) rets then Some (G, pk, r) else None
       | None => None end
     | None => None end
   | None => None end.
 
-Lemma kblock_fix : forall SF CD l B,
+Lemma kblock_fix : forall SF CD l il B,
+  (fix kb (il : bool) (B' : kctx) (l : list stmt) {struct l} : kres :=
+     match l with
+     | [] => Some (B', [])
+     | s :: l => match kstmt SF il B' CD s with
+                 | Some (B'', r1) => match kb il B'' l with Some (B3, r2) => Some (B3, r1 ++ r2) | None => None end
+                 | None => None end
+     end) il B l = kblock SF il B CD l.
+Proof.
+  intros SF CD. induction l as [|s l IH]; intros il B; [reflexivity|]. cbn [kblock].
+  destruct (kstmt SF il B CD s) as [[B' r1]|]; [|reflexivity]. now rewrite IH.
+Qed.
+Lemma kblock_fix0 : forall SF CD l B,
   (fix kb (B' : kctx) (l : list stmt) {struct l} : kres :=
      match l with
      | [] => Some (B', [])
-     | s :: l => match kstmt SF B' CD s with
+     | s :: l => match kstmt SF false B' CD s with
                  | Some (B'', r1) => match kb B'' l with Some (B3, r2) => Some (B3, r1 ++ r2) | None => None end
                  | None => None end
-     end) B l = kblock SF B CD l.
+     end) B l = kblock SF false B CD l.
 Proof.
   intros SF CD. induction l as [|s l IH]; intros B; [reflexivity|]. cbn [kblock].
-  destruct (kstmt SF B CD s) as [[B' r1]|]; [|reflexivity]. now rewrite IH.
+  destruct (kstmt SF false B CD s) as [[B' r1]|]; [|reflexivity]. now rewrite IH.
 Qed.
 Lemma kargs_fix : forall SF B CD l,
   (fix kargs (l : list expr) {struct l} : option (list kind) :=
@@ -279,42 +310,51 @@ Proof.
   - cbn [kexpr]. destruct (ok_dexpr B CD (ECall f args)); [reflexivity|]. destruct f; try reflexivity. now rewrite kargs_fix.
   - cbn [kexpr]. destruct (ok_dexpr B CD (ESelf args)); [reflexivity|]. now rewrite kargs_fix.
   - cbn [kexpr]. destruct (ok_dexpr B CD (EFn ps body)); [reflexivity|]. unfold kfn.
-    destruct (capctx B CD (free_vars ps body)) as [G|]; [|reflexivity]. rewrite !kblock_fix.
-    destruct (kblock (Some (map (pkind body) ps, KD)) (rev (combine ps (map (pkind body) ps))) G body) as [[B' rets0]|]; [|reflexivity].
-    rewrite ?kblock_fix. destruct (kind_eqb (rkind body rets0) KD).
+    destruct (capctx B CD (free_vars ps body)) as [G|]; [|reflexivity]. rewrite !kblock_fix0.
+    destruct (kblock (Some (map (pkind body) ps, KD)) false (rev (combine ps (map (pkind body) ps))) G body) as [[B' rets0]|]; [|reflexivity].
+    rewrite ?kblock_fix0. destruct (kind_eqb (rkind body rets0) KD).
     + destruct (nodupb ps && forallb src_nameb ps && forallb (kind_eqb (rkind body rets0)) rets0); reflexivity.
-    + destruct (kblock (Some (map (pkind body) ps, rkind body rets0)) (rev (combine ps (map (pkind body) ps))) G body) as [[B2 rets]|]; [|reflexivity].
+    + destruct (kblock (Some (map (pkind body) ps, rkind body rets0)) false (rev (combine ps (map (pkind body) ps))) G body) as [[B2 rets]|]; [|reflexivity].
       destruct (nodupb ps && forallb src_nameb ps && forallb (kind_eqb (rkind body rets0)) rets); reflexivity.
 Qed.
 
-Lemma kstmt_SIf : forall SF B CD c body, kstmt SF B CD (SIf c body) =
-  if is_KD (kexpr SF B CD c) then match kblock SF B CD body with Some (_, r) => Some (B, r) | None => None end else None.
+Lemma kstmt_SIf : forall SF il B CD c body, kstmt SF il B CD (SIf c body) =
+  if is_KD (kexpr SF B CD c) then match kblock SF il B CD body with Some (_, r) => Some (B, r) | None => None end else None.
 Proof. intros. cbn [kstmt]. now rewrite kblock_fix. Qed.
-Lemma kstmt_SIfElse : forall SF B CD c body els, kstmt SF B CD (SIfElse c body els) =
+Lemma kstmt_SIfElse : forall SF il B CD c body els, kstmt SF il B CD (SIfElse c body els) =
   if is_KD (kexpr SF B CD c) then
-    match kblock SF B CD body, kblock SF B CD els with Some (_, r1), Some (_, r2) => Some (B, r1 ++ r2) | _, _ => None end
+    match kblock SF il B CD body, kblock SF il B CD els with Some (_, r1), Some (_, r2) => Some (B, r1 ++ r2) | _, _ => None end
   else None.
 Proof. intros. cbn [kstmt]. now rewrite !kblock_fix. Qed.
-Lemma kstmt_SWhile : forall SF B CD c body, kstmt SF B CD (SWhile c body) =
-  if is_KD (kexpr SF B CD c) then match kblock SF B CD body with Some (_, r) => Some (B, r) | None => None end else None.
+Lemma kstmt_SIfElif : forall SF il B CD c body nxt, kstmt SF il B CD (SIfElif c body nxt) =
+  if is_KD (kexpr SF B CD c) then
+    match kblock SF il B CD body, kstmt SF il B CD nxt with Some (_, r1), Some (_, r2) => Some (B, r1 ++ r2) | _, _ => None end
+  else None.
+Proof. intros. cbn [kstmt]. now rewrite !kblock_fix. Qed.
+Lemma kstmt_SWhile : forall SF il B CD c body, kstmt SF il B CD (SWhile c body) =
+  if is_KD (kexpr SF B CD c) then match kblock SF true B CD body with Some (_, r) => Some (B, r) | None => None end else None.
 Proof. intros. cbn [kstmt]. now rewrite kblock_fix. Qed.
-Lemma kstmt_SFrom : forall SF B CD a b incl x body, kstmt SF B CD (SFrom a b incl None (Some x) false body) =
+Lemma kstmt_SFrom : forall SF il B CD a b incl x body, kstmt SF il B CD (SFrom a b incl None (Some x) false body) =
   if ok_dexpr B CD a && ok_dexpr B CD b && src_nameb x && negb (mem_str x (map fst B)) && negb (mem_str x (used_e b)) then
-    match kblock SF ((x, KD) :: B) CD body with Some (_, r) => Some (B, r) | None => None end
+    match kblock SF true ((x, KD) :: B) CD body with Some (_, r) => Some (B, r) | None => None end
   else None.
 Proof. intros. cbn [kstmt]. now rewrite kblock_fix. Qed.
 
 (* ================================================================ the code, as functions of the syntax *)
 Definition fbl := list (str * nat * list instr).     (* the functions defined: name, register level of the body, code *)
 Definition fbe (x : str * nat * list instr) : str * list instr := (fst (fst x), snd x).
+(* the end of a function body: `void; ret` unless the body ends with ret (callable.rs) *)
 Definition tailc (cb : list instr) : list instr :=
   match rev cb with
   | i :: _ => if (op i =? OP_RET)%N then [] else [mkI OP_VOID []; mkI OP_RET []]
   | [] => [mkI OP_VOID []; mkI OP_RET []] end.
+Definition sln (sl : option nat) : nat := match sl with Some n => n | None => 0 end.
 
 Section Code.
 Variable path : str.
 
+(* expressions: instructions.  statements: items, the break / continue placeholders of a loop body are resolved by the
+   loop (sl = scopes since the innermost loop, None outside a loop) *)
 Fixpoint ec (d lr k : nat) (e : expr) {struct e} : list instr * fbl :=
   let fix args (j k : nat) (l : list expr) {struct l} : list instr * list instr * fbl :=
     match l with
@@ -350,64 +390,79 @@ Fixpoint ec (d lr k : nat) (e : expr) {struct e} : list instr * fbl :=
       ([mkI OP_LOAD [g]] ++ [mkI OP_STORE_FAST [reg (S d)]] ++ ci ++ cl ++ [mkI OP_LOAD_FAST [reg (S d)]; mkI OP_CALL []], fl)
     | _ => (pcode d e, []) end
   | EFn ps body =>
-    let fix bc (k : nat) (l : list stmt) {struct l} : list instr * fbl :=
+    let fix bc (k : nat) (l : list stmt) {struct l} : list citem * fbl :=
       match l with
       | [] => ([], [])
-      | s :: l => let '(cs, fs) := sc (S d) lr k s in
+      | s :: l => let '(cs, fs) := sc (S d) lr None k s in
                   let '(cl, fl) := bc (k + length fs) l in (cs ++ cl, fs ++ fl)
       end in
     let '(cb, fb) := bc k body in
     let name := fn_name path (k + length fb) in
-    ([mkI OP_MAKE_FUNCTION (name :: free_vars ps body)], fb ++ [(name, S d, pcodeP 0 ps ++ cb ++ tailc cb)])
+    ([mkI OP_MAKE_FUNCTION (name :: free_vars ps body)], fb ++ [(name, S d, pcodeP 0 ps ++ strip cb ++ tailc (strip cb))])
   | _ => (pcode d e, [])
   end
-with sc (c lr k : nat) (s : stmt) {struct s} : list instr * fbl :=
-  let fix bc (lr k : nat) (l : list stmt) {struct l} : list instr * fbl :=
+with sc (c lr : nat) (sl : option nat) (k : nat) (s : stmt) {struct s} : list citem * fbl :=
+  let fix bc (lr : nat) (sl : option nat) (k : nat) (l : list stmt) {struct l} : list citem * fbl :=
     match l with
     | [] => ([], [])
-    | s :: l => let '(cs, fs) := sc c lr k s in
-                let '(cl, fl) := bc lr (k + length fs) l in (cs ++ cl, fs ++ fl)
+    | s :: l => let '(cs, fs) := sc c lr sl k s in
+                let '(cl, fl) := bc lr sl (k + length fs) l in (cs ++ cl, fs ++ fl)
     end in
+  let inner := option_map S sl in
   match s with
-  | SAssign x e => let '(ce, fe) := ec c lr k e in (ce ++ [mkI OP_STORE [x]], fe)
-  | SModify x e => let '(ce, fe) := ec c lr k e in (ce ++ [mkI OP_STORE_OBJECT [x]], fe)
-  | SPrint e => let '(ce, fe) := ec c lr k e in (ce ++ [mkI OP_PRINTN [s_star]; mkI OP_VOID []], fe)
-  | SExpr e => let '(ce, fe) := ec c lr k e in (ce ++ [mkI OP_VOID []], fe)
+  | SAssign x e => let '(ce, fe) := ec c lr k e in (map CI ce ++ [I OP_STORE [x]], fe)
+  | SModify x e => let '(ce, fe) := ec c lr k e in (map CI ce ++ [I OP_STORE_OBJECT [x]], fe)
+  | SOpAssign x o e =>
+    let '(ce, fe) := ec (S c) lr k e in (map CI ce ++ [I OP_BIN_OP_ASSIGN [binop_sym o ++ [61%N]; x]; I OP_VOID []], fe)
+  | SPrint e => let '(ce, fe) := ec c lr k e in (map CI ce ++ [I OP_PRINTN [s_star]; I OP_VOID []], fe)
+  | SAssert e sp => let '(ce, fe) := ec c lr k e in (map CI ce ++ [I OP_ASSERT [sp]], fe)
+  | SExpr e => let '(ce, fe) := ec c lr k e in (map CI ce ++ [I OP_VOID []], fe)
   | SIf cnd body =>
     let '(cc, fc) := ec c lr k cnd in
-    let '(cb0, fb) := bc lr (k + length fc) body in
-    let cb := cb0 ++ [mkI OP_DONE []] in
-    (cc ++ [mkI OP_IF_STMT [sN (length cb + 1)]] ++ cb, fc ++ fb)
+    let '(cb0, fb) := bc lr inner (k + length fc) body in
+    let cb := cb0 ++ [I OP_DONE []] in
+    (map CI cc ++ [I OP_IF_STMT [sN (length cb + 1)]] ++ cb, fc ++ fb)
   | SIfElse cnd body els =>
     let '(cc, fc) := ec c lr k cnd in
-    let '(cb0, fb) := bc lr (k + length fc) body in
-    let cb := cb0 ++ [mkI OP_DONE []] in
-    let '(ce0, fe) := bc lr (k + length fc + length fb) els in
-    let ce := mkI OP_ELSE_STMT [] :: ce0 ++ [mkI OP_DONE []] in
-    (cc ++ [mkI OP_IF_STMT [sN (length cb + 2)]] ++ cb ++ [mkI OP_JMP [sN (length ce + 1)]] ++ ce, fc ++ fb ++ fe)
+    let '(cb0, fb) := bc lr inner (k + length fc) body in
+    let cb := cb0 ++ [I OP_DONE []] in
+    let '(ce0, fe) := bc lr inner (k + length fc + length fb) els in
+    let ce := I OP_ELSE_STMT [] :: ce0 ++ [I OP_DONE []] in
+    (map CI cc ++ [I OP_IF_STMT [sN (length cb + 2)]] ++ cb ++ [I OP_JMP [sN (length ce + 1)]] ++ ce, fc ++ fb ++ fe)
+  | SIfElif cnd body nxt =>
+    let '(cc, fc) := ec c lr k cnd in
+    let '(cb0, fb) := bc lr inner (k + length fc) body in
+    let cb := cb0 ++ [I OP_DONE []] in
+    let '(ce0, fe) := sc c lr inner (k + length fc + length fb) nxt in
+    let ce := I OP_ELSE_STMT [] :: ce0 ++ [I OP_DONE []] in
+    (map CI cc ++ [I OP_IF_STMT [sN (length cb + 2)]] ++ cb ++ [I OP_JMP [sN (length ce + 1)]] ++ ce, fc ++ fb ++ fe)
   | SWhile cnd body =>
     let '(cc, fc) := ec c lr k cnd in
-    let '(cb0, fb) := bc lr (k + length fc) body in
-    let cb := cb0 ++ [mkI OP_JMP_POP [neg_off (1 + length cb0 + length cc)]] in
-    (cc ++ [mkI OP_WHILE_LOOP [sN (length cb + 1)]] ++ cb, fc ++ fb)
+    let '(cb0, fb) := bc lr (Some 1) (k + length fc) body in
+    let cb := cb0 ++ [I OP_JMP_POP [neg_off (1 + length cb0 + length cc)]] in
+    (map CI cc ++ [I OP_WHILE_LOOP [sN (length cb + 1)]] ++ resolve (length cb) 0 0 cb, fc ++ fb)
   | SFrom a b incl None (Some x) false body =>
     let endr := lregn (S lr) in
-    let cond := [mkI OP_LOAD_FAST [x]; mkI OP_LOAD_FAST [endr]; mkI OP_BIN_OP [if incl then op_le else op_lt]] in
-    let '(cbody, fb) := bc (S lr) k body in
-    let cstep := [mkI OP_MAKE_INT [s_one]; mkI OP_BIN_OP_ASSIGN [[43; 61]%N; x]] in
+    let cond := [I OP_LOAD_FAST [x]; I OP_LOAD_FAST [endr]; I OP_BIN_OP [if incl then op_le else op_lt]] in
+    let '(cbody, fb) := bc (S lr) (Some 1) k body in
+    let cstep := [I OP_MAKE_INT [s_one]; I OP_BIN_OP_ASSIGN [[43; 61]%N; x]] in
     let full0 := cbody ++ cstep in
-    let full := full0 ++ [mkI OP_JMP_POP [neg_off (1 + length cond + length full0)]] in
-    (pcode c a ++ [mkI OP_STORE_FAST [x]] ++ pcode c b ++ [mkI OP_STORE_FAST [endr]] ++ cond
-       ++ [mkI OP_WHILE_LOOP [sN (length full + 1)]] ++ full ++ [mkI OP_DELETE_NAME_SCOPED [x; endr]], fb)
-  | SReturn (Some e) => let '(ce, fe) := ec c lr k e in (ce ++ [mkI OP_RET []], fe)
+    let full := full0 ++ [I OP_JMP_POP [neg_off (1 + length cond + length full0)]] in
+    (map CI (pcode c a) ++ [I OP_STORE_FAST [x]] ++ map CI (pcode c b) ++ [I OP_STORE_FAST [endr]] ++ cond
+       ++ [I OP_WHILE_LOOP [sN (length full + 1)]] ++ resolve (length full) (length cstep) 0 full
+       ++ [I OP_DELETE_NAME_SCOPED [x; endr]], fb)
+  | SBreak => ([CBrk (sln sl)], [])
+  | SContinue => ([CCont (sln sl)], [])
+  | SReturn None => ([I OP_RET []], [])
+  | SReturn (Some e) => let '(ce, fe) := ec c lr k e in (map CI ce ++ [I OP_RET []], fe)
   | _ => ([], [])
   end.
 
-Fixpoint bc (c lr k : nat) (l : list stmt) {struct l} : list instr * fbl :=
+Fixpoint bc (c lr : nat) (sl : option nat) (k : nat) (l : list stmt) {struct l} : list citem * fbl :=
   match l with
   | [] => ([], [])
-  | s :: l => let '(cs, fs) := sc c lr k s in
-              let '(cl, fl) := bc c lr (k + length fs) l in (cs ++ cl, fs ++ fl)
+  | s :: l => let '(cs, fs) := sc c lr sl k s in
+              let '(cl, fl) := bc c lr sl (k + length fs) l in (cs ++ cl, fs ++ fl)
   end.
 Fixpoint eargs (lr j k : nat) (l : list expr) {struct l} : list instr * list instr * fbl :=
   match l with
@@ -417,27 +472,27 @@ Fixpoint eargs (lr j k : nat) (l : list expr) {struct l} : list instr * list ins
               (ca ++ [mkI OP_STORE_FAST [reg j]] ++ ci, mkI OP_LOAD_FAST [reg j] :: cl, fa ++ fl)
   end.
 
-Lemma bc_fix : forall c l lr k,
-  (fix bc (lr k : nat) (l : list stmt) {struct l} : list instr * fbl :=
+Lemma bc_fix : forall c l lr sl k,
+  (fix bc (lr : nat) (sl : option nat) (k : nat) (l : list stmt) {struct l} : list citem * fbl :=
      match l with
      | [] => ([], [])
-     | s :: l => let '(cs, fs) := sc c lr k s in
-                 let '(cl, fl) := bc lr (k + length fs) l in (cs ++ cl, fs ++ fl)
-     end) lr k l = bc c lr k l.
+     | s :: l => let '(cs, fs) := sc c lr sl k s in
+                 let '(cl, fl) := bc lr sl (k + length fs) l in (cs ++ cl, fs ++ fl)
+     end) lr sl k l = bc c lr sl k l.
 Proof.
-  intros c. induction l as [|s l IH]; intros lr k; [reflexivity|]. cbn [bc].
-  destruct (sc c lr k s) as [cs fs]. now rewrite IH.
+  intros c. induction l as [|s l IH]; intros lr sl k; [reflexivity|]. cbn [bc].
+  destruct (sc c lr sl k s) as [cs fs]. now rewrite IH.
 Qed.
 Lemma bc_fix1 : forall d lr l k,
-  (fix bc (k : nat) (l : list stmt) {struct l} : list instr * fbl :=
+  (fix bc (k : nat) (l : list stmt) {struct l} : list citem * fbl :=
      match l with
      | [] => ([], [])
-     | s :: l => let '(cs, fs) := sc (S d) lr k s in
+     | s :: l => let '(cs, fs) := sc (S d) lr None k s in
                  let '(cl, fl) := bc (k + length fs) l in (cs ++ cl, fs ++ fl)
-     end) k l = bc (S d) lr k l.
+     end) k l = bc (S d) lr None k l.
 Proof.
   intros d lr. induction l as [|s l IH]; intros k; [reflexivity|]. cbn [bc].
-  destruct (sc (S d) lr k s) as [cs fs]. now rewrite IH.
+  destruct (sc (S d) lr None k s) as [cs fs]. now rewrite IH.
 Qed.
 Lemma eargs_fix : forall lr l j k,
   (fix args (j k : nat) (l : list expr) {struct l} : list instr * list instr * fbl :=
@@ -454,7 +509,7 @@ Qed.
 
 (* the code of a function literal *)
 Definition fcode (d lr k : nat) (ps : list str) (body : list stmt) : list instr :=
-  let cb := fst (bc (S d) lr k body) in pcodeP 0 ps ++ cb ++ tailc cb.
+  let cb := strip (fst (bc (S d) lr None k body)) in pcodeP 0 ps ++ cb ++ tailc cb.
 
 Lemma ec_EBin : forall d lr k o a b, ec d lr k (EBin o a b) =
   let '(ca, fa) := ec (S d) lr k a in
@@ -466,11 +521,10 @@ Lemma ec_ECall : forall d lr k g l, ec d lr k (ECall (EVar g) l) =
   ([mkI OP_LOAD [g]] ++ [mkI OP_STORE_FAST [reg (S d)]] ++ ci ++ cl ++ [mkI OP_LOAD_FAST [reg (S d)]; mkI OP_CALL []], fl).
 Proof. intros. cbn [ec]. now rewrite eargs_fix. Qed.
 Lemma ec_EFn : forall d lr k ps body, ec d lr k (EFn ps body) =
-  let fb := snd (bc (S d) lr k body) in
+  let fb := snd (bc (S d) lr None k body) in
   let name := fn_name path (k + length fb) in
   ([mkI OP_MAKE_FUNCTION (name :: free_vars ps body)], fb ++ [(name, S d, fcode d lr k ps body)]).
-Proof. intros. cbn [ec]. rewrite bc_fix1. unfold fcode. destruct (bc (S d) lr k body) as [cb fb]. reflexivity. Qed.
-
+Proof. intros. cbn [ec]. rewrite bc_fix1. unfold fcode. destruct (bc (S d) lr None k body) as [cb fb]. reflexivity. Qed.
 Lemma ec_EAnd : forall d lr k a b, ec d lr k (EAnd a b) =
   let '(ca, fa) := ec (S d) lr k a in
   let '(cb, fb) := ec (S d) lr (k + length fa) b in
@@ -505,38 +559,47 @@ Proof.
   - rewrite ec_EGet, (IHe Hp). reflexivity.
 Qed.
 
-Lemma sc_SIf : forall c lr k cnd body, sc c lr k (SIf cnd body) =
+Lemma sc_SIf : forall c lr sl k cnd body, sc c lr sl k (SIf cnd body) =
   let '(cc, fc) := ec c lr k cnd in
-  let '(cb0, fb) := bc c lr (k + length fc) body in
-  let cb := cb0 ++ [mkI OP_DONE []] in
-  (cc ++ [mkI OP_IF_STMT [sN (length cb + 1)]] ++ cb, fc ++ fb).
+  let '(cb0, fb) := bc c lr (option_map S sl) (k + length fc) body in
+  let cb := cb0 ++ [I OP_DONE []] in
+  (map CI cc ++ [I OP_IF_STMT [sN (length cb + 1)]] ++ cb, fc ++ fb).
 Proof. intros. cbn [sc]. destruct (ec c lr k cnd) as [cc fc]. now rewrite bc_fix. Qed.
-Lemma sc_SIfElse : forall c lr k cnd body els, sc c lr k (SIfElse cnd body els) =
+Lemma sc_SIfElse : forall c lr sl k cnd body els, sc c lr sl k (SIfElse cnd body els) =
   let '(cc, fc) := ec c lr k cnd in
-  let '(cb0, fb) := bc c lr (k + length fc) body in
-  let cb := cb0 ++ [mkI OP_DONE []] in
-  let '(ce0, fe) := bc c lr (k + length fc + length fb) els in
-  let ce := mkI OP_ELSE_STMT [] :: ce0 ++ [mkI OP_DONE []] in
-  (cc ++ [mkI OP_IF_STMT [sN (length cb + 2)]] ++ cb ++ [mkI OP_JMP [sN (length ce + 1)]] ++ ce, fc ++ fb ++ fe).
+  let '(cb0, fb) := bc c lr (option_map S sl) (k + length fc) body in
+  let cb := cb0 ++ [I OP_DONE []] in
+  let '(ce0, fe) := bc c lr (option_map S sl) (k + length fc + length fb) els in
+  let ce := I OP_ELSE_STMT [] :: ce0 ++ [I OP_DONE []] in
+  (map CI cc ++ [I OP_IF_STMT [sN (length cb + 2)]] ++ cb ++ [I OP_JMP [sN (length ce + 1)]] ++ ce, fc ++ fb ++ fe).
 Proof.
-  intros. cbn [sc]. destruct (ec c lr k cnd) as [cc fc]. rewrite bc_fix. destruct (bc c lr (k + length fc) body) as [cb0 fb].
+  intros. cbn [sc]. destruct (ec c lr k cnd) as [cc fc]. rewrite bc_fix. destruct (bc c lr (option_map S sl) (k + length fc) body) as [cb0 fb].
   now rewrite bc_fix.
 Qed.
-Lemma sc_SWhile : forall c lr k cnd body, sc c lr k (SWhile cnd body) =
+Lemma sc_SIfElif : forall c lr sl k cnd body nxt, sc c lr sl k (SIfElif cnd body nxt) =
   let '(cc, fc) := ec c lr k cnd in
-  let '(cb0, fb) := bc c lr (k + length fc) body in
-  let cb := cb0 ++ [mkI OP_JMP_POP [neg_off (1 + length cb0 + length cc)]] in
-  (cc ++ [mkI OP_WHILE_LOOP [sN (length cb + 1)]] ++ cb, fc ++ fb).
+  let '(cb0, fb) := bc c lr (option_map S sl) (k + length fc) body in
+  let cb := cb0 ++ [I OP_DONE []] in
+  let '(ce0, fe) := sc c lr (option_map S sl) (k + length fc + length fb) nxt in
+  let ce := I OP_ELSE_STMT [] :: ce0 ++ [I OP_DONE []] in
+  (map CI cc ++ [I OP_IF_STMT [sN (length cb + 2)]] ++ cb ++ [I OP_JMP [sN (length ce + 1)]] ++ ce, fc ++ fb ++ fe).
 Proof. intros. cbn [sc]. destruct (ec c lr k cnd) as [cc fc]. now rewrite bc_fix. Qed.
-Lemma sc_SFrom : forall c lr k a b incl x body, sc c lr k (SFrom a b incl None (Some x) false body) =
+Lemma sc_SWhile : forall c lr sl k cnd body, sc c lr sl k (SWhile cnd body) =
+  let '(cc, fc) := ec c lr k cnd in
+  let '(cb0, fb) := bc c lr (Some 1) (k + length fc) body in
+  let cb := cb0 ++ [I OP_JMP_POP [neg_off (1 + length cb0 + length cc)]] in
+  (map CI cc ++ [I OP_WHILE_LOOP [sN (length cb + 1)]] ++ resolve (length cb) 0 0 cb, fc ++ fb).
+Proof. intros. cbn [sc]. destruct (ec c lr k cnd) as [cc fc]. now rewrite bc_fix. Qed.
+Lemma sc_SFrom : forall c lr sl k a b incl x body, sc c lr sl k (SFrom a b incl None (Some x) false body) =
   let endr := lregn (S lr) in
-  let cond := [mkI OP_LOAD_FAST [x]; mkI OP_LOAD_FAST [endr]; mkI OP_BIN_OP [if incl then op_le else op_lt]] in
-  let '(cbody, fb) := bc c (S lr) k body in
-  let cstep := [mkI OP_MAKE_INT [s_one]; mkI OP_BIN_OP_ASSIGN [[43; 61]%N; x]] in
+  let cond := [I OP_LOAD_FAST [x]; I OP_LOAD_FAST [endr]; I OP_BIN_OP [if incl then op_le else op_lt]] in
+  let '(cbody, fb) := bc c (S lr) (Some 1) k body in
+  let cstep := [I OP_MAKE_INT [s_one]; I OP_BIN_OP_ASSIGN [[43; 61]%N; x]] in
   let full0 := cbody ++ cstep in
-  let full := full0 ++ [mkI OP_JMP_POP [neg_off (1 + length cond + length full0)]] in
-  (pcode c a ++ [mkI OP_STORE_FAST [x]] ++ pcode c b ++ [mkI OP_STORE_FAST [endr]] ++ cond
-     ++ [mkI OP_WHILE_LOOP [sN (length full + 1)]] ++ full ++ [mkI OP_DELETE_NAME_SCOPED [x; endr]], fb).
+  let full := full0 ++ [I OP_JMP_POP [neg_off (1 + length cond + length full0)]] in
+  (map CI (pcode c a) ++ [I OP_STORE_FAST [x]] ++ map CI (pcode c b) ++ [I OP_STORE_FAST [endr]] ++ cond
+     ++ [I OP_WHILE_LOOP [sN (length full + 1)]] ++ resolve (length full) (length cstep) 0 full
+     ++ [I OP_DELETE_NAME_SCOPED [x; endr]], fb).
 Proof. intros. cbn [sc]. now rewrite bc_fix. Qed.
 End Code.
 
@@ -554,10 +617,17 @@ Proof. reflexivity. Qed.
 
 Lemma resolve_map_CI : forall F S l idx, resolve F S idx (map CI l) = map CI l.
 Proof. intros F S. induction l as [|i l IH]; intros idx; [reflexivity|]. cbn [map resolve]. now rewrite IH. Qed.
-Lemma strip_ftail_CI : forall l, strip (ftail (map CI l)) = tailc l.
+Lemma strip_snoc : forall l it, strip (l ++ [it]) = strip l ++ strip [it].
+Proof. induction l as [|x l IH]; intros it; [reflexivity|]. cbn [app]. destruct x; cbn [strip]; now rewrite IH. Qed.
+(* the `void; ret` a function body gets (callable.rs looks at the last item: a placeholder is not a ret) *)
+Lemma strip_ftail : forall its, Forall is_CI its -> strip (ftail its) = tailc (strip its).
 Proof.
-  intros l. unfold ftail, ends_in_ret, tailc. rewrite <- map_rev. destruct (rev l) as [|i r]; [reflexivity|].
-  cbn [map]. destruct (op i =? OP_RET)%N; reflexivity.
+  intros its H. unfold ftail, ends_in_ret, tailc.
+  destruct (rev its) as [|it r] eqn:E.
+  - apply (f_equal (@rev citem)) in E. rewrite rev_involutive in E. subst its. reflexivity.
+  - apply (f_equal (@rev citem)) in E. rewrite rev_involutive in E. cbn [rev] in E. subst its.
+    apply Forall_app in H as [_ H]. pose proof (Forall_inv H) as Hi. destruct it as [i|n|n]; try contradiction.
+    rewrite strip_snoc. cbn [strip]. rewrite rev_app_distr. cbn [rev app]. destruct (op i =? OP_RET)%N; reflexivity.
 Qed.
 
 Section Comp.
@@ -567,8 +637,9 @@ Definition comp_e (e : expr) : Prop :=
   forall SF B CD k0, kexpr SF B CD e = Some k0 -> forall d st,
     cexpr path d e st = (map CI (fst (ec path d (lreg st) (fid st) e)), stx st (snd (ec path d (lreg st) (fid st) e))).
 Definition comp_s (s : stmt) : Prop :=
-  forall SF B CD r, kstmt SF B CD s = Some r -> forall c sl st,
-    cstmt path c sl s st = (map CI (fst (sc path c (lreg st) (fid st) s)), stx st (snd (sc path c (lreg st) (fid st) s))).
+  forall SF il B CD r, kstmt SF il B CD s = Some r -> forall c sl st,
+    cstmt path c sl s st = (fst (sc path c (lreg st) sl (fid st) s), stx st (snd (sc path c (lreg st) sl (fid st) s))) /\
+    (il = false -> Forall is_CI (fst (sc path c (lreg st) sl (fid st) s))).
 
 Lemma comp_pure : forall e, pure e = true -> forall d st,
   cexpr path d e st = (map CI (fst (ec path d (lreg st) (fid st) e)), stx st (snd (ec path d (lreg st) (fid st) e))).
@@ -577,17 +648,19 @@ Proof. intros e Hp d st. rewrite (ec_pure path e Hp), (cexpr_pure path e Hp). cb
 Lemma ok_dexpr_pure : forall B CD e, ok_dexpr B CD e = true -> pure e = true.
 Proof. intros B CD e H. unfold ok_dexpr in H. rewrite !andb_true_iff in H. tauto. Qed.
 
-Lemma comp_block : forall l, Forall comp_s l -> forall SF B CD r, kblock SF B CD l = Some r -> forall c sl st,
-  cblockT path c sl l st = (map CI (fst (bc path c (lreg st) (fid st) l)), stx st (snd (bc path c (lreg st) (fid st) l))).
+Lemma comp_block : forall l, Forall comp_s l -> forall SF il B CD r, kblock SF il B CD l = Some r -> forall c sl st,
+  cblockT path c sl l st = (fst (bc path c (lreg st) sl (fid st) l), stx st (snd (bc path c (lreg st) sl (fid st) l))) /\
+  (il = false -> Forall is_CI (fst (bc path c (lreg st) sl (fid st) l))).
 Proof.
-  induction l as [|s l IH]; intros HF SF B CD r Hk c sl st.
-  - cbn [cblockT bc fst snd map]. now rewrite stx_nil.
-  - cbn [kblock] in Hk. destruct (kstmt SF B CD s) as [[B' r1]|] eqn:Es; [|discriminate].
-    destruct (kblock SF B' CD l) as [[B3 r2]|] eqn:El; [|discriminate].
-    cbn [cblockT bc]. rewrite (Forall_inv HF SF B CD _ Es c sl st).
-    destruct (sc path c (lreg st) (fid st) s) as [cs fs] eqn:E1. cbn [fst snd].
-    rewrite (IH (Forall_inv_tail HF) SF B' CD _ El c sl (stx st fs)). rewrite stx_lreg, stx_fid.
-    destruct (bc path c (lreg st) (fid st + length fs) l) as [cl fl]. cbn [fst snd]. now rewrite stx_app, map_app.
+  induction l as [|s l IH]; intros HF SF il B CD r Hk c sl st.
+  - cbn [cblockT bc fst snd]. rewrite stx_nil. split; [reflexivity|constructor].
+  - cbn [kblock] in Hk. destruct (kstmt SF il B CD s) as [[B' r1]|] eqn:Es; [|discriminate].
+    destruct (kblock SF il B' CD l) as [[B3 r2]|] eqn:El; [|discriminate].
+    cbn [cblockT bc]. destruct (Forall_inv HF SF il B CD _ Es c sl st) as [E1 C1]. rewrite E1.
+    destruct (sc path c (lreg st) sl (fid st) s) as [cs fs] eqn:E2. cbn [fst snd] in *.
+    destruct (IH (Forall_inv_tail HF) SF il B' CD _ El c sl (stx st fs)) as [E3 C3]. rewrite E3. rewrite stx_lreg, stx_fid in *.
+    destruct (bc path c (lreg st) sl (fid st + length fs) l) as [cl fl]. cbn [fst snd] in *. rewrite stx_app. split; [reflexivity|].
+    intros Hil. apply Forall_app. split; [exact (C1 Hil)|exact (C3 Hil)].
 Qed.
 
 Lemma comp_args : forall l, Forall comp_e l -> forall SF B CD ks, kargs SF B CD l = Some ks -> forall j st,
@@ -611,8 +684,14 @@ Proof. reflexivity. Qed.
 Lemma cstmt_Modify : forall c sl x e st, cstmt path c sl (SModify x e) st =
   let '(ce, st) := cexpr path c e st in (ce ++ [I OP_STORE_OBJECT [x]], st).
 Proof. reflexivity. Qed.
+Lemma cstmt_OpAssign : forall c sl x o e st, cstmt path c sl (SOpAssign x o e) st =
+  let '(ce, st) := cexpr path (S c) e st in (ce ++ [I OP_BIN_OP_ASSIGN [binop_sym o ++ [61%N]; x]; I OP_VOID []], st).
+Proof. reflexivity. Qed.
 Lemma cstmt_Print : forall c sl e st, cstmt path c sl (SPrint e) st =
   let '(ce, st) := cexpr path c e st in (ce ++ [I OP_PRINTN [s_star]; I OP_VOID []], st).
+Proof. reflexivity. Qed.
+Lemma cstmt_Assert : forall c sl e sp st, cstmt path c sl (SAssert e sp) st =
+  let '(ce, st) := cexpr path c e st in (ce ++ [I OP_ASSERT [sp]], st).
 Proof. reflexivity. Qed.
 Lemma cstmt_Expr : forall c sl e st, cstmt path c sl (SExpr e) st =
   let '(ce, st) := cexpr path c e st in (ce ++ [I OP_VOID []], st).
@@ -620,15 +699,20 @@ Proof. reflexivity. Qed.
 Lemma cstmt_Return : forall c sl e st, cstmt path c sl (SReturn (Some e)) st =
   let '(ce, st) := cexpr path c e st in (ce ++ [I OP_RET []], st).
 Proof. reflexivity. Qed.
-Lemma sc_Assign : forall c lr k x e, sc path c lr k (SAssign x e) = let '(ce, fe) := ec path c lr k e in (ce ++ [mkI OP_STORE [x]], fe).
+Lemma sc_Assign : forall c lr sl k x e, sc path c lr sl k (SAssign x e) = let '(ce, fe) := ec path c lr k e in (map CI ce ++ [I OP_STORE [x]], fe).
 Proof. reflexivity. Qed.
-Lemma sc_Modify : forall c lr k x e, sc path c lr k (SModify x e) = let '(ce, fe) := ec path c lr k e in (ce ++ [mkI OP_STORE_OBJECT [x]], fe).
+Lemma sc_Modify : forall c lr sl k x e, sc path c lr sl k (SModify x e) = let '(ce, fe) := ec path c lr k e in (map CI ce ++ [I OP_STORE_OBJECT [x]], fe).
 Proof. reflexivity. Qed.
-Lemma sc_Print : forall c lr k e, sc path c lr k (SPrint e) = let '(ce, fe) := ec path c lr k e in (ce ++ [mkI OP_PRINTN [s_star]; mkI OP_VOID []], fe).
+Lemma sc_OpAssign : forall c lr sl k x o e, sc path c lr sl k (SOpAssign x o e) =
+  let '(ce, fe) := ec path (S c) lr k e in (map CI ce ++ [I OP_BIN_OP_ASSIGN [binop_sym o ++ [61%N]; x]; I OP_VOID []], fe).
 Proof. reflexivity. Qed.
-Lemma sc_Expr : forall c lr k e, sc path c lr k (SExpr e) = let '(ce, fe) := ec path c lr k e in (ce ++ [mkI OP_VOID []], fe).
+Lemma sc_Print : forall c lr sl k e, sc path c lr sl k (SPrint e) = let '(ce, fe) := ec path c lr k e in (map CI ce ++ [I OP_PRINTN [s_star]; I OP_VOID []], fe).
 Proof. reflexivity. Qed.
-Lemma sc_Return : forall c lr k e, sc path c lr k (SReturn (Some e)) = let '(ce, fe) := ec path c lr k e in (ce ++ [mkI OP_RET []], fe).
+Lemma sc_Assert : forall c lr sl k e sp, sc path c lr sl k (SAssert e sp) = let '(ce, fe) := ec path c lr k e in (map CI ce ++ [I OP_ASSERT [sp]], fe).
+Proof. reflexivity. Qed.
+Lemma sc_Expr : forall c lr sl k e, sc path c lr sl k (SExpr e) = let '(ce, fe) := ec path c lr k e in (map CI ce ++ [I OP_VOID []], fe).
+Proof. reflexivity. Qed.
+Lemma sc_Return : forall c lr sl k e, sc path c lr sl k (SReturn (Some e)) = let '(ce, fe) := ec path c lr k e in (map CI ce ++ [I OP_RET []], fe).
 Proof. reflexivity. Qed.
 
 Lemma cstmt_SIfElse' : forall c sl cnd body els st, cstmt path c sl (SIfElse cnd body els) st =
@@ -639,6 +723,17 @@ Lemma cstmt_SIfElse' : forall c sl cnd body els st, cstmt path c sl (SIfElse cnd
   let ce := I OP_ELSE_STMT [] :: ce ++ [I OP_DONE []] in
   (cc ++ [I OP_IF_STMT [sN (length cb + 2)]] ++ cb ++ [I OP_JMP [sN (length ce + 1)]] ++ ce, st).
 Proof. intros. apply cstmt_SIfElse. Qed.
+Lemma cstmt_SIfElif' : forall c sl cnd body nxt st, cstmt path c sl (SIfElif cnd body nxt) st =
+  let '(cc, st) := cexpr path c cnd st in
+  let '(cb, st) := cblockT path c (option_map S sl) body st in
+  let cb := cb ++ [I OP_DONE []] in
+  let '(ce, st) := cstmt path c (option_map S sl) nxt st in
+  let ce := I OP_ELSE_STMT [] :: ce ++ [I OP_DONE []] in
+  (cc ++ [I OP_IF_STMT [sN (length cb + 2)]] ++ cb ++ [I OP_JMP [sN (length ce + 1)]] ++ ce, st).
+Proof. intros. apply cstmt_SIfElif. Qed.
+
+Ltac ci2 := repeat (first [ apply map_CI_all | apply resolve_all_CI | assumption
+                          | apply Forall_app; split | apply Forall_cons | apply Forall_nil | exact Logic.I ]).
 
 (* the two-operand forms share the shape of the proof *)
 Ltac two_ops IHa IHb SF B CD Ea Eb d st :=
@@ -647,6 +742,10 @@ Ltac two_ops IHa IHb SF B CD Ea Eb d st :=
   rewrite (IHb SF B CD _ Eb (S d) (stx st fa)); rewrite stx_lreg, stx_fid;
   destruct (ec path (S d) (lreg st) (fid st + length fa) _) as [cb fb]; cbn [fst snd];
   rewrite stx_app, ?I_op_instr, !map_app, ?map_length; reflexivity.
+(* a statement that is an expression followed by instructions *)
+Ltac simple_stmt IHe SF B CD Ee c st :=
+  rewrite (IHe SF B CD _ Ee c st);
+  destruct (ec path c (lreg st) (fid st) _) as [ce fe]; cbn [fst snd]; split; [reflexivity|intros _; ci2].
 
 Theorem comp_both : (forall e, comp_e e) /\ (forall s, comp_s s).
 Proof.
@@ -692,12 +791,13 @@ Proof.
     intros ps body IHb SF B CD k0 Hk d st. rewrite kexpr_eq in Hk.
     destruct (ok_dexpr B CD (EFn ps body)) eqn:Ho; [apply ok_dexpr_pure in Ho; discriminate|].
     unfold kfn in Hk. destruct (capctx B CD (free_vars ps body)) as [G|]; [|discriminate].
-    destruct (kblock (Some (map (pkind body) ps, KD)) (rev (combine ps (map (pkind body) ps))) G body) as [[B' rets]|] eqn:Eb; [|discriminate].
-    rewrite cexpr_EFn_eq, ec_EFn. rewrite (comp_block body IHb _ _ G _ Eb (S d) None st).
-    unfold fcode. destruct (bc path (S d) (lreg st) (fid st) body) as [cb fb]. cbn [fst snd]. cbv zeta.
+    destruct (kblock (Some (map (pkind body) ps, KD)) false (rev (combine ps (map (pkind body) ps))) G body) as [[B' rets]|] eqn:Eb; [|discriminate].
+    rewrite cexpr_EFn_eq, ec_EFn. destruct (comp_block body IHb _ false _ G _ Eb (S d) None st) as [E1 C1]. rewrite E1.
+    specialize (C1 eq_refl).
+    unfold fcode. destruct (bc path (S d) (lreg st) None (fid st) body) as [cb fb]. cbn [fst snd] in *. cbv zeta.
     rewrite stx_fid, stx_lreg. f_equal.
     unfold stx. cbn [fid lreg fbuf]. rewrite app_length, map_app. cbn [length map fbe fst snd].
-    rewrite !strip_app, strip_map_CI, strip_map_CI, strip_ftail_CI. rewrite <- app_assoc.
+    rewrite !strip_app, strip_map_CI, (strip_ftail cb C1). rewrite <- app_assoc.
     f_equal. lia.
   - (* ENilOr *)
     intros a b IHa IHb SF B CD k0 Hk d st. destruct (pure (ENilOr a b)) eqn:Hp; [now apply comp_pure|].
@@ -711,84 +811,90 @@ Proof.
     rewrite cexpr_EGet, ec_EGet. rewrite (IHa SF B CD _ Ea (S d) st).
     destruct (ec path (S d) (lreg st) (fid st) a) as [ca fa]. cbn [fst snd]. now rewrite map_app.
   - (* SAssign *)
-    intros x e IHe SF B CD r Hk c sl st. cbn [kstmt] in Hk. destruct (src_nameb x); [|discriminate].
-    destruct (kexpr SF B CD e) as [k|] eqn:Ee; [|discriminate]. rewrite cstmt_Assign, sc_Assign. rewrite (IHe SF B CD k Ee c st).
-    destruct (ec path c (lreg st) (fid st) e) as [ce fe]. cbn [fst snd]. now rewrite map_app.
+    intros x e IHe SF il B CD r Hk c sl st. cbn [kstmt] in Hk. destruct (src_nameb x); [|discriminate].
+    destruct (kexpr SF B CD e) as [k|] eqn:Ee; [|discriminate]. rewrite cstmt_Assign, sc_Assign. simple_stmt IHe SF B CD Ee c st.
   - (* SModify *)
-    intros x e IHe SF B CD r Hk c sl st. cbn [kstmt] in Hk. destruct (assoc x CD) as [kx|]; [|discriminate].
-    destruct (kexpr SF B CD e) as [k1|] eqn:Ee; [|discriminate]. rewrite cstmt_Modify, sc_Modify. rewrite (IHe SF B CD k1 Ee c st).
-    destruct (ec path c (lreg st) (fid st) e) as [ce fe]. cbn [fst snd]. now rewrite map_app.
-  - intros x o e _ SF B CD r Hk. discriminate.
+    intros x e IHe SF il B CD r Hk c sl st. cbn [kstmt] in Hk. destruct (assoc x CD) as [kx|]; [|discriminate].
+    destruct (kexpr SF B CD e) as [k1|] eqn:Ee; [|discriminate]. rewrite cstmt_Modify, sc_Modify. simple_stmt IHe SF B CD Ee c st.
+  - (* SOpAssign *)
+    intros x o e IHe SF il B CD r Hk c sl st. cbn [kstmt] in Hk.
+    destruct (kexpr SF B CD e) as [k1|] eqn:Ee; [|rewrite andb_false_r in Hk; discriminate].
+    rewrite cstmt_OpAssign, sc_OpAssign. simple_stmt IHe SF B CD Ee (S c) st.
   - (* SPrint *)
-    intros e IHe SF B CD r Hk c sl st. cbn [kstmt] in Hk. destruct (kexpr SF B CD e) as [k|] eqn:Ee; [|discriminate].
-    rewrite cstmt_Print, sc_Print. rewrite (IHe SF B CD k Ee c st).
-    destruct (ec path c (lreg st) (fid st) e) as [ce fe]. cbn [fst snd]. now rewrite map_app.
-  - intros e sp _ SF B CD r Hk. discriminate.
+    intros e IHe SF il B CD r Hk c sl st. cbn [kstmt] in Hk. destruct (kexpr SF B CD e) as [k|] eqn:Ee; [|discriminate].
+    rewrite cstmt_Print, sc_Print. simple_stmt IHe SF B CD Ee c st.
+  - (* SAssert *)
+    intros e sp IHe SF il B CD r Hk c sl st. cbn [kstmt] in Hk. destruct (kexpr SF B CD e) as [k|] eqn:Ee; [|discriminate].
+    rewrite cstmt_Assert, sc_Assert. simple_stmt IHe SF B CD Ee c st.
   - (* SExpr *)
-    intros e IHe SF B CD r Hk c sl st. cbn [kstmt] in Hk. destruct (kexpr SF B CD e) as [k|] eqn:Ee; [|discriminate].
-    rewrite cstmt_Expr, sc_Expr. rewrite (IHe SF B CD k Ee c st).
-    destruct (ec path c (lreg st) (fid st) e) as [ce fe]. cbn [fst snd]. now rewrite map_app.
+    intros e IHe SF il B CD r Hk c sl st. cbn [kstmt] in Hk. destruct (kexpr SF B CD e) as [k|] eqn:Ee; [|discriminate].
+    rewrite cstmt_Expr, sc_Expr. simple_stmt IHe SF B CD Ee c st.
   - (* SIf *)
-    intros cnd body IHc IHb SF B CD r Hk c sl st. rewrite kstmt_SIf in Hk.
+    intros cnd body IHc IHb SF il B CD r Hk c sl st. rewrite kstmt_SIf in Hk.
     destruct (kexpr SF B CD cnd) as [k|] eqn:Ec; [|discriminate]. cbn [is_KD] in Hk. destruct k; [|discriminate..].
-    destruct (kblock SF B CD body) as [[B' rb]|] eqn:Eb; [|discriminate].
+    destruct (kblock SF il B CD body) as [[B' rb]|] eqn:Eb; [|discriminate].
     rewrite cstmt_SIf, sc_SIf. rewrite (IHc SF B CD _ Ec c st).
     destruct (ec path c (lreg st) (fid st) cnd) as [cc fc]. cbn [fst snd].
-    rewrite (comp_block body IHb SF B CD _ Eb c (option_map S sl) (stx st fc)). rewrite stx_lreg, stx_fid.
-    destruct (bc path c (lreg st) (fid st + length fc) body) as [cb0 fb]. cbn [fst snd].
-    rewrite stx_app, !map_app, !app_length, !map_length. reflexivity.
+    destruct (comp_block body IHb SF il B CD _ Eb c (option_map S sl) (stx st fc)) as [E1 C1]. rewrite E1. rewrite stx_lreg, stx_fid in *.
+    destruct (bc path c (lreg st) (option_map S sl) (fid st + length fc) body) as [cb0 fb]. cbn [fst snd] in *.
+    rewrite stx_app, !app_length. split; [reflexivity|]. intros Hil. specialize (C1 Hil). ci2.
   - (* SIfElse *)
-    intros cnd body els IHc IHb IHe SF B CD r Hk c sl st. rewrite kstmt_SIfElse in Hk.
+    intros cnd body els IHc IHb IHe SF il B CD r Hk c sl st. rewrite kstmt_SIfElse in Hk.
     destruct (kexpr SF B CD cnd) as [k|] eqn:Ec; [|discriminate]. cbn [is_KD] in Hk. destruct k; [|discriminate..].
-    destruct (kblock SF B CD body) as [[B' rb]|] eqn:Eb; [|discriminate].
-    destruct (kblock SF B CD els) as [[B2 re]|] eqn:Ee; [|discriminate].
+    destruct (kblock SF il B CD body) as [[B' rb]|] eqn:Eb; [|discriminate].
+    destruct (kblock SF il B CD els) as [[B2 re]|] eqn:Ee; [|discriminate].
     rewrite cstmt_SIfElse', sc_SIfElse. rewrite (IHc SF B CD _ Ec c st).
     destruct (ec path c (lreg st) (fid st) cnd) as [cc fc]. cbn [fst snd].
-    rewrite (comp_block body IHb SF B CD _ Eb c (option_map S sl) (stx st fc)). rewrite stx_lreg, stx_fid.
-    destruct (bc path c (lreg st) (fid st + length fc) body) as [cb0 fb]. cbn [fst snd].
-    rewrite (comp_block els IHe SF B CD _ Ee c (option_map S sl) (stx (stx st fc) fb)). rewrite !stx_lreg, !stx_fid.
-    destruct (bc path c (lreg st) (fid st + length fc + length fb) els) as [ce0 fe]. cbn [fst snd]. cbv zeta.
-    rewrite !stx_app. cbn [length map]. rewrite !map_app, !app_length, !map_length. cbn [map length]. rewrite !map_app. reflexivity.
-  - intros cnd b n _ _ _ SF B CD r Hk. discriminate.
-  - (* SWhile *)
-    intros cnd body IHc IHb SF B CD r Hk c sl st. rewrite kstmt_SWhile in Hk.
+    destruct (comp_block body IHb SF il B CD _ Eb c (option_map S sl) (stx st fc)) as [E1 C1]. rewrite E1. rewrite stx_lreg, stx_fid in *.
+    destruct (bc path c (lreg st) (option_map S sl) (fid st + length fc) body) as [cb0 fb]. cbn [fst snd] in *.
+    destruct (comp_block els IHe SF il B CD _ Ee c (option_map S sl) (stx (stx st fc) fb)) as [E2 C2]. rewrite E2. rewrite !stx_lreg, !stx_fid in *.
+    destruct (bc path c (lreg st) (option_map S sl) (fid st + length fc + length fb) els) as [ce0 fe]. cbn [fst snd] in *. cbv zeta.
+    rewrite !stx_app. split; [reflexivity|]. intros Hil. specialize (C1 Hil). specialize (C2 Hil). ci2.
+  - (* SIfElif *)
+    intros cnd body nxt IHc IHb IHn SF il B CD r Hk c sl st. rewrite kstmt_SIfElif in Hk.
     destruct (kexpr SF B CD cnd) as [k|] eqn:Ec; [|discriminate]. cbn [is_KD] in Hk. destruct k; [|discriminate..].
-    destruct (kblock SF B CD body) as [[B' rb]|] eqn:Eb; [|discriminate].
+    destruct (kblock SF il B CD body) as [[B' rb]|] eqn:Eb; [|discriminate].
+    destruct (kstmt SF il B CD nxt) as [[B2 re]|] eqn:Ee; [|discriminate].
+    rewrite cstmt_SIfElif', sc_SIfElif. rewrite (IHc SF B CD _ Ec c st).
+    destruct (ec path c (lreg st) (fid st) cnd) as [cc fc]. cbn [fst snd].
+    destruct (comp_block body IHb SF il B CD _ Eb c (option_map S sl) (stx st fc)) as [E1 C1]. rewrite E1. rewrite stx_lreg, stx_fid in *.
+    destruct (bc path c (lreg st) (option_map S sl) (fid st + length fc) body) as [cb0 fb]. cbn [fst snd] in *.
+    destruct (IHn SF il B CD _ Ee c (option_map S sl) (stx (stx st fc) fb)) as [E2 C2]. rewrite E2. rewrite !stx_lreg, !stx_fid in *.
+    destruct (sc path c (lreg st) (option_map S sl) (fid st + length fc + length fb) nxt) as [ce0 fe]. cbn [fst snd] in *. cbv zeta.
+    rewrite !stx_app. split; [reflexivity|]. intros Hil. specialize (C1 Hil). specialize (C2 Hil). ci2.
+  - (* SWhile *)
+    intros cnd body IHc IHb SF il B CD r Hk c sl st. rewrite kstmt_SWhile in Hk.
+    destruct (kexpr SF B CD cnd) as [k|] eqn:Ec; [|discriminate]. cbn [is_KD] in Hk. destruct k; [|discriminate..].
+    destruct (kblock SF true B CD body) as [[B' rb]|] eqn:Eb; [|discriminate].
     rewrite cstmt_SWhile, sc_SWhile. rewrite (IHc SF B CD _ Ec c st).
     destruct (ec path c (lreg st) (fid st) cnd) as [cc fc]. cbn [fst snd].
-    rewrite (comp_block body IHb SF B CD _ Eb c (Some 1) (stx st fc)). rewrite stx_lreg, stx_fid.
-    destruct (bc path c (lreg st) (fid st + length fc) body) as [cb0 fb]. cbn [fst snd]. cbv zeta.
-    change [I OP_JMP_POP [neg_off (1 + length (map CI cb0) + length (map CI cc))]]
-      with (map CI [mkI OP_JMP_POP [neg_off (1 + length (map CI cb0) + length (map CI cc))]]).
-    rewrite <- map_app, resolve_map_CI. rewrite stx_app, !map_app, !app_length, !map_length. reflexivity.
+    destruct (comp_block body IHb SF true B CD _ Eb c (Some 1) (stx st fc)) as [E1 _]. rewrite E1. rewrite stx_lreg, stx_fid.
+    destruct (bc path c (lreg st) (Some 1) (fid st + length fc) body) as [cb0 fb]. cbn [fst snd]. cbv zeta.
+    rewrite stx_app, !map_length. split; [reflexivity|]. intros _. ci2.
   - (* SFrom *)
-    intros a b incl step name collide body _ _ _ IHb SF B CD r Hk c sl st.
+    intros a b incl step name collide body _ _ _ IHb SF il B CD r Hk c sl st.
     destruct step as [e|]; [discriminate|]. destruct name as [x|]; [|discriminate]. destruct collide; [discriminate|].
     rewrite kstmt_SFrom in Hk.
     destruct (ok_dexpr B CD a && ok_dexpr B CD b && src_nameb x && negb (mem_str x (map fst B)) && negb (mem_str x (used_e b))) eqn:Hc;
       [|discriminate].
     rewrite !andb_true_iff in Hc. destruct Hc as [[[[Ha Hb] _] _] _].
-    destruct (kblock SF ((x, KD) :: B) CD body) as [[B' rb]|] eqn:Eb; [|discriminate].
+    destruct (kblock SF true ((x, KD) :: B) CD body) as [[B' rb]|] eqn:Eb; [|discriminate].
     rewrite cstmt_SFrom, sc_SFrom.
     rewrite (cexpr_pure path a (ok_dexpr_pure _ _ _ Ha)), (cexpr_pure path b (ok_dexpr_pure _ _ _ Hb)).
     cbv zeta.
-    rewrite (comp_block body IHb SF _ CD _ Eb c (Some 1) {| fid := fid st; lreg := S (lreg st); fbuf := fbuf st |}).
+    destruct (comp_block body IHb SF true _ CD _ Eb c (Some 1) {| fid := fid st; lreg := S (lreg st); fbuf := fbuf st |}) as [E1 _]. rewrite E1.
     cbn [lreg fid].
-    destruct (bc path c (S (lreg st)) (fid st) body) as [cbody fb]. cbn [fst snd].
-    match goal with |- context [resolve ?F ?S0 0 ?L] =>
-      replace (resolve F S0 0 L) with L end.
-    2:{ symmetry.
-        change [I OP_MAKE_INT [s_one]] with (map CI [mkI OP_MAKE_INT [s_one]]).
-        change [I OP_BIN_OP_ASSIGN [[43%N; 61%N]; x]] with (map CI [mkI OP_BIN_OP_ASSIGN [[43%N; 61%N]; x]]).
-        match goal with |- context [I OP_JMP_POP ?A] => change [I OP_JMP_POP A] with (map CI [mkI OP_JMP_POP A]) end.
-        rewrite <- !map_app. apply resolve_map_CI. }
-    unfold stx. cbn [fid lreg fbuf]. replace (S (lreg st) - 1) with (lreg st) by lia.
-    rewrite !map_app, !app_length, !map_length. cbn [map length]. rewrite <- !app_assoc. reflexivity.
-  - intros SF B CD r Hk. discriminate.
-  - intros SF B CD r Hk. discriminate.
+    destruct (bc path c (S (lreg st)) (Some 1) (fid st) body) as [cbody fb]. cbn [fst snd].
+    unfold stx. cbn [fid lreg fbuf length]. replace (S (lreg st) - 1) with (lreg st) by lia.
+    split; [reflexivity|]. intros _. ci2.
+  - (* SBreak *) intros SF il B CD r Hk c sl st. cbn [kstmt] in Hk. destruct il; [|discriminate]. cbn [cstmt sc fst snd]. rewrite stx_nil.
+    split; [reflexivity|discriminate].
+  - (* SContinue *) intros SF il B CD r Hk c sl st. cbn [kstmt] in Hk. destruct il; [|discriminate]. cbn [cstmt sc fst snd]. rewrite stx_nil.
+    split; [reflexivity|discriminate].
   - (* SReturn *)
-    intros [e|] IHe SF B CD r Hk c sl st; [|discriminate]. cbn [kstmt] in Hk.
-    destruct (kexpr SF B CD e) as [k|] eqn:Ee; [|discriminate]. rewrite cstmt_Return, sc_Return. rewrite (IHe e eq_refl SF B CD k Ee c st).
-    destruct (ec path c (lreg st) (fid st) e) as [ce fe]. cbn [fst snd]. now rewrite map_app.
+    intros [e|] IHe SF il B CD r Hk c sl st.
+    + cbn [kstmt] in Hk. destruct (kexpr SF B CD e) as [k|] eqn:Ee; [|discriminate]. rewrite cstmt_Return, sc_Return.
+      simple_stmt (IHe e eq_refl) SF B CD Ee c st.
+    + cbn [cstmt sc fst snd]. rewrite stx_nil. split; [reflexivity|intros _; ci2].
 Qed.
 End Comp.
